@@ -133,6 +133,28 @@ fn structured_frames() -> Vec<(String, Vec<u8>)> {
         w.u32le(SID).u16le(4).u16le((capbytes.len() + 4) as u16).bytes(b"RDP\0").u16le((caps.len() as i32 + delta) as u16).u16le(0).bytes(&capbytes).u32le(0);
         v.push((format!("demand-active announcing {} capability than present", name), sdi(&share::share_control(share::PDUTYPE_DEMANDACTIVE, 1002, &w.0))));
     }
+    // source descriptor: lengths around 16 / 32 / 64 x content (ASCII, Latin-1, 2/3/4-byte UTF-8 at every alignment, invalid UTF-8)
+    for len in [0usize, 1, 3, 14, 15, 16, 17, 18, 19, 20, 31, 32, 33, 63, 64, 65, 255, 256, 300] {
+        let fills: [(&str, Vec<u8>); 7] = [
+            ("ascii", vec![0x41]),
+            ("latin-1", vec![0xE9]),
+            ("2-byte utf-8", "é".as_bytes().to_vec()),
+            ("3-byte utf-8", "日".as_bytes().to_vec()),
+            ("4-byte utf-8", "😀".as_bytes().to_vec()),
+            ("invalid utf-8", vec![0xFF, 0xC0, 0x80]),
+            ("utf-16", vec![0x52, 0x00, 0x44, 0xD8]),
+        ];
+        for (name, unit) in fills.iter() {
+            for shift in 0..unit.len().min(3) {
+                let mut sd: Vec<u8> = std::iter::repeat(0x61).take(shift).chain(unit.iter().cycle().copied()).take(len).collect();
+                if len > 0 && shift == 0 {
+                    let last = sd.len() - 1;
+                    sd[last] = 0;
+                }
+                v.push((format!("demand-active source descriptor of {} bytes, {} shifted by {}", len, name, shift), sdi(&share::demand_active(SID, 1002, &sd, &share::minimal_caps(), 0))));
+            }
+        }
+    }
     v.push(("demand-active without any capability".into(), sdi(&share::demand_active(SID, 1002, b"", &[], 0))));
     v.push(("demand-active with 2000 capabilities".into(), sdi(&share::demand_active(SID, 1002, b"RDP\0", &vec![share::CapSet { ty: 0x0E, body: vec![0; 4] }; 2000], 0))));
     // MCS: every domain PDU choice with a short body; every disconnect reason; indications on other channels / from other users
@@ -344,7 +366,7 @@ impl Prop for C06 {
         d
     }
     fn rule(&self) -> String {
-        "cases = (client state 0..5 reached by the honest activation prefix, one server frame with <=1 deviation (<=2 thorough)). PDU kinds: demand-active (Windows capability list and minimal), deactivate-all, synchronize, control, font-map, set-error-info, an unparsed data PDU, two share PDUs in one frame, a confirm-active sent by the server, fast-path bitmap (raw + compressed-with-header rectangles), fast-path pointer/synchronize updates, unknown fast-path codes. Deviations: every byte offset x value set (12 boundary values + honest+-1; all 256 in thorough), every offset as 16/32-bit field in both byte orders x boundary set, every truncation, extensions {+1,+2,+1500}; [inner-*] every byte string of length <=2 (<=3 in thorough for the Data state, and state 0 at the share-control entry) and every string of length 3..4 (..6 in thorough) over 8 boundary bytes at the MCS, share-control (states 0,1,5 in quick, all six in thorough) and fast-path parser entries, and as raw unframed bytes at the frame reader; [pairs, thorough] all pairs of {byte:=00, byte:=FF, truncate} over all offsets, in states 0 and 5. [structured] well-formed frames with consistent length fields in each of the six states: every share-control type x version bits x body length, every pduType2 0..0x40 x payload length, compression / stream bytes, a demand-active carrying a capability of every type 0..0x1F, 0xFF, 0xFFFF x body length, capability counts off by +-1 / +100, no and 2000 capabilities, every MCS domain-PDU choice 0..63, every disconnect reason, indications on other channels / from other users, every fast-path update code x fragmentation x compression bit x body length, rectangle counts 0..0xFFFF against two present; [frame-pairs] every ordered pair of 10 well-formed share PDUs in one frame, in each of the six states. After the hostile frame an honest PDU is read to expose desynchronisation loops, then, when the hostile frame was tolerated (read returned Ok), the server plays the rest of an honest activation from that state followed by fast-path output and a data PDU, with an input attempt after every step: a tolerated fault must not blow up later. Non-trivial: the frame differs from the honest one.".into()
+        "cases = (client state 0..5 reached by the honest activation prefix, one server frame with <=1 deviation (<=2 thorough)). PDU kinds: demand-active (Windows capability list and minimal), deactivate-all, synchronize, control, font-map, set-error-info, an unparsed data PDU, two share PDUs in one frame, a confirm-active sent by the server, fast-path bitmap (raw + compressed-with-header rectangles), fast-path pointer/synchronize updates, unknown fast-path codes. Deviations: every byte offset x value set (12 boundary values + honest+-1; all 256 in thorough), every offset as 16/32-bit field in both byte orders x boundary set, every truncation, extensions {+1,+2,+1500}; [inner-*] every byte string of length <=2 (<=3 in thorough for the Data state, and state 0 at the share-control entry) and every string of length 3..4 (..6 in thorough) over 8 boundary bytes at the MCS, share-control (states 0,1,5 in quick, all six in thorough) and fast-path parser entries, and as raw unframed bytes at the frame reader; [pairs, thorough] all pairs of {byte:=00, byte:=FF, truncate} over all offsets, in states 0 and 5. [structured] well-formed frames with consistent length fields in each of the six states: every share-control type x version bits x body length, every pduType2 0..0x40 x payload length, compression / stream bytes, a demand-active carrying a capability of every type 0..0x1F, 0xFF, 0xFFFF x body length, source descriptors of 0..300 bytes in ASCII / Latin-1 / 2-3-4-byte UTF-8 at every alignment / invalid UTF-8 / UTF-16, capability counts off by +-1 / +100, no and 2000 capabilities, every MCS domain-PDU choice 0..63, every disconnect reason, indications on other channels / from other users, every fast-path update code x fragmentation x compression bit x body length, rectangle counts 0..0xFFFF against two present; [frame-pairs] every ordered pair of 10 well-formed share PDUs in one frame, in each of the six states. After the hostile frame an honest PDU is read to expose desynchronisation loops, then, when the hostile frame was tolerated (read returned Ok), the server plays the rest of an honest activation from that state followed by fast-path output and a data PDU, with an input attempt after every step: a tolerated fault must not blow up later. Non-trivial: the frame differs from the honest one.".into()
     }
     fn assumptions(&self) -> Vec<String> {
         vec!["memory rule: single request > 1 MiB or peak > 16 MiB + 1024 x bytes received".into(), "the six states are reached through RdpClient::read on the raw stack (hooks H3/H4); TLS record handling is not part of this property".into()]
